@@ -126,8 +126,13 @@ type PKI struct {
 	// a server identity issued by an authority of its own (not the one configured for client certificates), whose
 	// certificate file holds the full chain (leaf + issuer), and a client certificate issued by that authority
 	ServerCA, ChainedServer, ViaServerCA *Ident
-	ViaInter                             *Ident // wrong leaf name, chained through the intermediate that carries the right name
-	RuleName                             string
+	// a second rule name that contains separator characters (as personal certificates do: "Doe, John"), the
+	// identity that carries it, and identities that carry only a piece of it
+	RuleName2 string
+	Right2    *Ident
+	Pieces2   []*Ident
+	ViaInter  *Ident // wrong leaf name, chained through the intermediate that carries the right name
+	RuleName  string
 }
 
 var pki *PKI
@@ -158,6 +163,11 @@ func GetPKI() *PKI {
 		p.NearNames = append(p.NearNames, newIdent(fmt.Sprintf("near%d", i), cn, false, p.CA, nb, na, int64(20+i)))
 	}
 	p.SANName = newIdentSAN("sanname", "intruder.verif", []string{p.RuleName, "*.verif", "localhost"}, false, p.CA, nb, na, 11)
+	p.RuleName2 = "Doe, John; ops|verif"
+	p.Right2 = newIdent("right2", p.RuleName2, false, p.CA, nb, na, 50)
+	for i, cn := range []string{"Doe", "John", "Doe, John", "Doe,John", " John", "ops", "verif", "John; ops|verif", "ops|verif", "Doe, John; ops"} {
+		p.Pieces2 = append(p.Pieces2, newIdent(fmt.Sprintf("piece%d", i), cn, false, p.CA, nb, na, int64(51+i)))
+	}
 	p.ServerCA = newIdent("server-ca", "server issuing authority", true, nil, nb, na, 40)
 	p.ChainedServer = newIdent("chained-server", "localhost", false, p.ServerCA, nb, na, 41)
 	p.ChainedServer.Chain = [][]byte{p.ChainedServer.DER, p.ServerCA.DER}
